@@ -19,19 +19,19 @@ Theorem C14_cleanup_source_constants_admissible : cfg_okb src_cfg = true.
 Proof. vm_compute. reflexivity. Qed.
 Print Assumptions C14_cleanup_source_constants_admissible.
 
-(* HEADLINE.  For EVERY byte string, the checked transcription of FunctionToken::cleanup returns a
-   result: no at()/mid()/truncate()/chop()/remove() argument is ever out of range, none of its
-   fourteen loops runs out of fuel (= it terminates), and the result is never longer than the
-   input.  All positions the model computes are then within [-1, |s|], so with |s| < 2^31 they fit
-   the C++ int. *)
-Theorem C14_cleanup_total : forall s, exists r, cleanup s = Some r /\ len r <= len s.
+(* HEADLINE.  For EVERY byte string that a QByteArray can hold (size < 2^31 - 1), the checked
+   transcription of FunctionToken::cleanup returns a result: no at()/mid()/truncate()/chop()/remove()
+   argument is ever out of range, every position, bracket counter and length the C++ computes in an
+   int stays within [-2^31, 2^31), none of its loops runs out of fuel (= it terminates), and
+   the result is never longer than the input. *)
+Theorem C14_cleanup_total : forall s, len s <= INT_MAX - 1 -> exists r, cleanup s = Some r /\ len r <= len s.
 Proof. exact (cleanup_cfg_total src_cfg C14_cleanup_source_constants_admissible). Qed.
 Print Assumptions C14_cleanup_total.
 
 (* the oracle the check evaluates on the implementation's %{func} output means exactly
    "the implementation computed what the checked model computes" *)
-Theorem C14_func_oracle_iff : forall input out,
-  prop_c14_func_b input out = true <-> cleanup input = Some out.
+Theorem C14_func_oracle_iff : forall input out, len input <= INT_MAX - 1 ->
+  (prop_c14_func_b input out = true <-> cleanup input = Some out).
 Proof. exact (fun i o => oracle_iff i o C14_cleanup_source_constants_admissible). Qed.
 Print Assumptions C14_func_oracle_iff.
 
@@ -75,9 +75,10 @@ Print Assumptions C14_parse_pattern_total.
    emits without an out-of-range access or int overflow - including %{func} (cleanup), the literal's
    mid(removeCount), the optional attribute's chop and the saturating pending-remove counter - and
    |result| <= that bound *)
-Theorem C14_format_total : forall toks m, len (mfile m) <= INT_MAX -> fmt_bound toks m <= INT_MAX ->
+Theorem C14_format_total : forall toks m, len (mfile m) <= INT_MAX -> len (mfunc m) <= INT_MAX - 1 ->
+  fmt_bound toks m <= INT_MAX ->
   exists r, format_c toks m = Some r /\ len r <= fmt_bound toks m.
-Proof. exact (fun toks m He Hb => format_total toks m He C14_cleanup_source_constants_admissible Hb). Qed.
+Proof. exact (fun toks m Hf Hg Hb => format_total toks m (conj Hf Hg) C14_cleanup_source_constants_admissible Hb). Qed.
 Print Assumptions C14_format_total.
 
 (* PrettyFormatter: typeLetters[type] is inside the table for the five message types (the table read
